@@ -22,7 +22,7 @@ import vbuild, vcheck
 
 LEVEL = "proof"
 NS = "Adept.Storage."
-REQUIRED = ["C07_inv_init", "C07_inv_step", "C07_inv_reachable", "C07_freed_once", "C07_no_leak",
+REQUIRED = ["C07_inv_init", "C07_inv_step", "C07_inv_reachable", "C07_inv_meaning", "C07_freed_once", "C07_no_storage_fault", "C07_no_leak",
             "C07_shares_exactly", "C07_soft_external_hold_nothing", "C07_assign_owns", "C07_assign_independent"]
 MODEL_FILE = "AdeptModel/Storage.lean <-> Storage.h / Array.h life cycle (ctor, dtor, link, clear, resize, =, move =)"
 SRC = os.path.join(vbuild.VERIF, "harness", "drv_storage.cpp")
@@ -646,7 +646,9 @@ def report_pending(ctx, fails):
 
 def run(ctx, replay):
     thms = [NS + t for t in vcheck.prop_theorems("AdeptProofs/Props/C07.lean", "C07_")]
-    fails = vcheck.lean_gate(ctx, ["AdeptProofs.Props.C07"], thms, required=[NS + r for r in REQUIRED])
+    thms += [NS + t for t in vcheck.prop_theorems("AdeptProofs/Refute/MoveFromExternal.lean", "")]
+    fails = vcheck.lean_gate(ctx, ["AdeptProofs.Props.C07", "AdeptProofs.Refute.MoveFromExternal"], thms,
+                             required=[NS + r for r in REQUIRED])
     exe = vbuild.build("storage", SRC)
     ctx.pending = []
     workers = min(12, os.cpu_count() or 4)
